@@ -226,64 +226,221 @@ def named(case):
     return {k: to_torch(v) for k, v in case["t"].items()}
 
 
-def run_impl(case):
-    """Run the real code for one family-level case. Returns dict of float64 numpy arrays or {'err': class}."""
+_OBJS = {}
+
+
+def objs():
+    """ONE symbolic distribution and ONE function object per (family, api) for the whole run: whatever a function object
+    remembers between calls (a memo keyed by shape, by tensor identity ...) is exercised by every later case."""
+    if not _OBJS:
+        D = env()["D"]
+        _OBJS["normal"] = D.Normal("loc", "scale")
+        _OBJS["bern"] = D.Bernoulli("p")
+        _OBJS["weib"] = D.WeibullRightCensored("nu", "rho", "xi", "tau")
+        _OBJS["weib_s"] = D.WeibullRightCensoredWithSources("nu", "rho", "xi", "tau", "s")
+        _OBJS["f"] = {}
+    return _OBJS
+
+
+def func(fam, api, value_name):
+    o = objs()
+    key = (fam, api, value_name)
+    if key not in o["f"]:
+        o["f"][key] = getattr(o[fam], api)(value_name)
+    return o["f"][key]
+
+
+def decoy_of(name, t):
+    """another admissible value of the same shape / dtype (written into the very tensor objects before the real values)"""
+    torch = env()["torch"]
+    if t.dtype == torch.bool:
+        return ~t
+    if name in ("mask", "ev"):
+        return 1 - t
+    if name == "p":
+        return 0.5 * t + 0.25
+    if name == "y":
+        return 1.0 - t
+    if name in ("scale", "nu", "rho"):
+        return (t.abs() * 1.5 + 0.25).to(t.dtype)
+    return (t * 0.5 + 1.0).to(t.dtype)
+
+
+def same_bits(a, b):
+    torch = env()["torch"]
+    if a.dtype != b.dtype or a.shape != b.shape:
+        return False
+    if a.dtype.is_floating_point:
+        it = torch.int32 if a.dtype == torch.float32 else torch.int64
+        return bool(torch.equal(a.contiguous().view(it), b.contiguous().view(it)))
+    return bool(torch.equal(a, b))
+
+
+def as_weight(mask, wkind):
+    """the weights of a WeightedTensor in every form the class accepts: bool mask, 0/1 float or integer weights, nested list"""
+    torch = env()["torch"]
+    if mask is None or wkind in (None, "bool"):
+        return mask
+    if wkind == "f32":
+        return mask.to(torch.float32)
+    if wkind == "i64":
+        return mask.to(torch.int64)
+    if wkind == "list":
+        return mask.tolist()
+    return mask
+
+
+def relayout(t):
+    """same values, another memory layout (non-contiguous strides)"""
+    torch = env()["torch"]
+    if t.dim() >= 2:
+        return t.transpose(0, -1).contiguous().transpose(0, -1)
+    if t.dim() == 1 and t.numel() >= 1:
+        return torch.stack([t, t], dim=1)[:, 0]
+    return t
+
+
+class Ambient:
+    """process state around the call: torch default dtype float64, autograd switched off, inputs that require grad"""
+
+    def __init__(self, kind):
+        self.kind = kind
+
+    def __enter__(self):
+        torch = env()["torch"]
+        self.prev = torch.get_default_dtype()
+        self.ng = None
+        if self.kind == "f64default":
+            torch.set_default_dtype(torch.float64)
+        elif self.kind == "no_grad":
+            self.ng = torch.no_grad()
+            self.ng.__enter__()
+        return self
+
+    def __exit__(self, *a):
+        torch = env()["torch"]
+        torch.set_default_dtype(self.prev)
+        if self.ng is not None:
+            self.ng.__exit__(*a)
+        return False
+
+
+def _calls(case, T, out, real):
+    """all the calls of one case on the tensors T (real=False: decoy pass, results dropped)"""
     e = env()
-    D, WT, torch, np = e["D"], e["WT"], e["torch"], e["np"]
-    T = named(case)
+    D, WT, torch = e["D"], e["WT"], e["torch"]
+    from leaspy.utils.weighted_tensor import sum_dim
     fam = case["family"]
+    entry = case.get("entry", "symbolic")
+    wk = case.get("wkind")
+    if fam == "normal":
+        mask = T.get("mask")
+        w = as_weight(mask, wk)
+        if case["api"] == "get_func_regularization":
+            xin = WT(T["x"], w) if case.get("xw") else T["x"]
+            if entry == "family":
+                r = D.NormalFamily.regularization(xin, T["loc"], T["scale"])
+            else:
+                r = func("normal", "get_func_regularization", "x")(x=xin, loc=T["loc"], scale=T["scale"])
+        elif entry == "family":
+            r = D.NormalFamily.nll(WT(T["x"], w), T["loc"], T["scale"])
+        else:
+            r = func("normal", "get_func_nll", "x")(x=WT(T["x"], w), loc=T["loc"], scale=T["scale"])
+        if not real:
+            return
+        out["dtype"] = str(r.value.dtype)
+        out["v"] = r.value.detach().double().numpy()
+        expect_w = mask is not None and (case["api"] == "get_func_nll" or case.get("xw"))
+        if r.weight is not None:
+            out["w_kept"] = bool(expect_w and torch.equal(r.weight != 0, mask) and (isinstance(w, list) or r.weight.dtype == w.dtype))
+        elif expect_w:
+            out["w_kept"] = False
+        xw = WT(T["x"], w if expect_w else None)
+        j1 = D.NormalFamily._nll_jacobian(xw, T["loc"], T["scale"])
+        v2, j2 = D.NormalFamily._nll_and_jacobian(xw, T["loc"], T["scale"])
+        out["jac"] = j1.value.detach().double().numpy()
+        out["jacz"] = j2.value.detach().double().numpy()
+        out["v2"] = v2.value.detach().double().numpy()
+        # the public wrappers and the symbolic factories of the same two functions
+        j3 = func("normal", "get_func_nll_jacobian", "x")(x=xw, loc=T["loc"], scale=T["scale"])
+        v4, j4 = func("normal", "get_func_nll_and_jacobian", "x")(x=xw, loc=T["loc"], scale=T["scale"])
+        j5 = D.NormalFamily.nll_jacobian(xw, T["loc"], T["scale"])
+        v6, j6 = D.NormalFamily.nll_and_jacobian(xw, T["loc"], T["scale"])
+        out["pub"] = {"jac:get_func_nll_jacobian": j3.value.detach().double().numpy(), "jac:get_func_nll_and_jacobian": j4.value.detach().double().numpy(),
+                      "v:get_func_nll_and_jacobian": v4.value.detach().double().numpy(), "jac:nll_jacobian": j5.value.detach().double().numpy(),
+                      "jac:nll_and_jacobian": j6.value.detach().double().numpy(), "v:nll_and_jacobian": v6.value.detach().double().numpy()}
+        if expect_w:
+            out["pub_w"] = all(t_.weight is not None and bool(torch.equal(t_.weight != 0, mask)) for t_ in (j1, j2, v2, j3, j4, v4, j5, j6, v6))
+        if expect_w and T["x"].dim() >= 1:
+            out["sum"] = sum_dim(r, but_dim=0).detach().double().numpy()
+    elif fam == "bern":
+        mask = T.get("mask")
+        w = as_weight(mask, wk)
+        if entry == "family":
+            r = D.BernoulliFamily.nll(WT(T["y"], w), T["p"])
+        else:
+            r = func("bern", "get_func_nll", "y")(y=WT(T["y"], w), p=T["p"])
+        if not real:
+            return
+        out["dtype"] = str(r.value.dtype)
+        out["v"] = r.value.detach().double().numpy()
+        if mask is not None:
+            out["w_kept"] = r.weight is not None and bool(torch.equal(r.weight != 0, mask))
+            out["sum"] = sum_dim(r, but_dim=0).detach().double().numpy()
+    else:
+        x = WT(T["t"], as_weight(T["ev"], wk))
+        if "s" in T:
+            key, famcls = "weib_s", D.WeibullRightCensoredWithSourcesFamily
+            args = dict(nu=T["nu"], rho=T["rho"], xi=T["xi"], tau=T["tau"], s=T["s"])
+            pos = (T["nu"], T["rho"], T["xi"], T["tau"], T["s"])
+        else:
+            key, famcls = "weib", D.WeibullRightCensoredFamily
+            args = dict(nu=T["nu"], rho=T["rho"], xi=T["xi"], tau=T["tau"])
+            pos = (T["nu"], T["rho"], T["xi"], T["tau"])
+        if entry == "family":
+            r = famcls.nll(x, *pos)
+        else:
+            r = func(key, "get_func_nll", "event")(event=x, **args)
+        if not real:
+            return
+        out["dtype"] = str(r.value.dtype)
+        out["v"] = r.value.detach().double().numpy()
+        out["ls"] = famcls.compute_log_survival(x, *pos).detach().double().numpy()
+        out["lh"] = famcls.compute_log_likelihood_hazard(x, *pos).detach().double().numpy()
+        out["hz"] = famcls.compute_hazard(x, *pos).detach().double().numpy()
+        if r.value.dim() >= 1:
+            out["sum"] = sum_dim(r, but_dim=0).detach().double().numpy()
+
+
+def run_impl(case):
+    """Run the real code for one family-level case. Returns dict of float64 numpy arrays or {'err': class}.
+    The tensors handed to the code first hold OTHER admissible values (a dropped call is made on them), then the case's values
+    are written into the very same tensor objects: a result remembered by object identity or by shape shows up as a wrong value.
+    After the calls the inputs must still hold the case's values bit for bit."""
+    e = env()
+    torch = e["torch"]
+    truth = named(case)
+    amb = case.get("ambient")
     out = {}
     try:
-        with core.quiet():
-            if fam == "normal":
-                mask = T.get("mask")
-                dist = D.Normal("loc", "scale")
-                if case["api"] == "get_func_regularization":
-                    r = dist.get_func_regularization("x")(x=T["x"], loc=T["loc"], scale=T["scale"])
-                else:
-                    r = dist.get_func_nll("x")(x=WT(T["x"], mask), loc=T["loc"], scale=T["scale"])
-                out["dtype"] = str(r.value.dtype)
-                out["v"] = r.value.double().numpy()
-                if r.weight is not None:
-                    out["w_kept"] = bool(torch.equal(r.weight, mask))
-                elif mask is not None:
-                    out["w_kept"] = False
-                xw = WT(T["x"], mask)
-                j1 = D.NormalFamily._nll_jacobian(xw, T["loc"], T["scale"])
-                v2, j2 = D.NormalFamily._nll_and_jacobian(xw, T["loc"], T["scale"])
-                out["jac"] = j1.value.double().numpy()
-                out["jacz"] = j2.value.double().numpy()
-                out["v2"] = v2.value.double().numpy()
-                if mask is not None and case["api"] == "get_func_nll" and T["x"].dim() >= 1:
-                    from leaspy.utils.weighted_tensor import sum_dim
-                    out["sum"] = sum_dim(r, but_dim=0).double().numpy()
-            elif fam == "bern":
-                mask = T.get("mask")
-                r = D.Bernoulli("p").get_func_nll("y")(y=WT(T["y"], mask), p=T["p"])
-                out["dtype"] = str(r.value.dtype)
-                out["v"] = r.value.double().numpy()
-                if mask is not None:
-                    out["w_kept"] = r.weight is not None and bool(torch.equal(r.weight, mask))
-                    from leaspy.utils.weighted_tensor import sum_dim
-                    out["sum"] = sum_dim(r, but_dim=0).double().numpy()
-            else:
-                x = WT(T["t"], T["ev"])
-                if "s" in T:
-                    dist = D.WeibullRightCensoredWithSources("nu", "rho", "xi", "tau", "s")
-                    args = dict(nu=T["nu"], rho=T["rho"], xi=T["xi"], tau=T["tau"], s=T["s"])
-                    pos = (T["nu"], T["rho"], T["xi"], T["tau"], T["s"])
-                else:
-                    dist = D.WeibullRightCensored("nu", "rho", "xi", "tau")
-                    args = dict(nu=T["nu"], rho=T["rho"], xi=T["xi"], tau=T["tau"])
-                    pos = (T["nu"], T["rho"], T["xi"], T["tau"])
-                f = dist.get_func_nll("event")
-                r = f(event=x, **args)
-                out["dtype"] = str(r.value.dtype)
-                out["v"] = r.value.double().numpy()
-                out["ls"] = dist.dist_family.compute_log_survival(x, *pos).double().numpy()
-                out["lh"] = dist.dist_family.compute_log_likelihood_hazard(x, *pos).double().numpy()
-                from leaspy.utils.weighted_tensor import sum_dim
-                out["sum"] = sum_dim(r, but_dim=0).double().numpy()
+        with core.quiet(), Ambient(amb):
+            T = {k: decoy_of(k, v).clone() for k, v in truth.items()}
+            if amb == "noncontig":
+                T = {k: relayout(v) for k, v in T.items()}
+            try:
+                _calls(case, T, {}, real=False)
+            except Exception:  # noqa  (the decoy values need not be accepted)
+                pass
+            for k, v in truth.items():
+                T[k].copy_(v)
+            if amb == "requires_grad":
+                for k in ("x", "t"):
+                    if k in T and T[k].dtype.is_floating_point:
+                        T[k] = T[k].clone().requires_grad_(True)
+            _calls(case, T, out, real=True)
+            changed = [k for k, v in truth.items() if not same_bits(T[k].detach(), v)]
+            if changed:
+                out["inputs_changed"] = changed
     except Exception as ex:  # noqa
         return {"err": err_class(ex), "msg": str(ex)[:200]}
     return out
@@ -320,7 +477,7 @@ def eval_normal(chk, case, impl, model):
         logs = np.log(s)
     envl = env_normal(eps, q, logs, c_impl)
     v = impl["v"]
-    in_domain = bool((s > 0).all())
+    in_domain = bool((s > 0).all()) and bool(np.isfinite(x).all() and np.isfinite(loc).all() and np.isfinite(s).all())
     # --- property predicate (implementation alone)
     if in_domain:
         ref = -sst.norm.logpdf(x, loc=loc, scale=s)
@@ -341,6 +498,20 @@ def eval_normal(chk, case, impl, model):
             chk.impl_failure(cj, f"_nll_and_jacobian value differs from _nll at {bad}: {float(impl['v2'][bad])!r} vs {float(v[bad])!r}")
         if impl.get("w_kept") is False:
             chk.impl_failure(cj, "Normal nll does not carry the weights (mask) of the value")
+        if impl.get("pub_w") is False:
+            chk.impl_failure(cj, "a Normal nll / jacobian entry point does not carry the weights (mask) of the value")
+        for key, arr in impl.get("pub", {}).items():
+            what, entry_name = key.split(":")
+            if what == "jac":
+                bad = first_bad(close(arr, jref, jenv))
+                if bad is not None:
+                    chk.impl_failure(cj, f"Normal nll jacobian through {entry_name}, entry {bad}: {float(arr[bad])!r} but d/dx(-log pdf) = {float(jref[bad])!r}")
+            else:
+                bad = first_bad(close(arr, ref, envl + 2 * EPS32 * c_impl))
+                if bad is not None:
+                    chk.impl_failure(cj, f"Normal nll through {entry_name}, entry {bad}: {float(arr[bad])!r} but -log pdf = {float(ref[bad])!r}")
+    if impl.get("inputs_changed"):
+        chk.impl_failure(cj, f"Normal nll functions modified their inputs in place: {impl['inputs_changed']}")
     # --- model comparison
     mv = np.array(model["v"], dtype=np.float64).reshape(model["shape"])
     if list(v.shape) != model["shape"]:
@@ -418,6 +589,8 @@ def eval_bern(chk, case, impl, model):
         chk.impl_failure(cj, "Bernoulli nll not finite for p in [0,1], y in {0,1}")
     if impl.get("w_kept") is False:
         chk.impl_failure(cj, "Bernoulli nll does not carry the weights (mask) of the value")
+    if impl.get("inputs_changed"):
+        chk.impl_failure(cj, f"Bernoulli nll modified its inputs in place: {impl['inputs_changed']}")
     ratio_tag(chk, "bern_ref_dev/envelope", v, ref2, envl)
     mv = np.array(model["v"], dtype=np.float64).reshape(model["shape"])
     if list(v.shape) != model["shape"]:
@@ -513,6 +686,21 @@ def eval_weib(chk, case, impl, model):
         chk.impl_failure(cj, f"{n_known} observed event(s) with t'>0 whose hazard underflows: log-hazard taken as 0, nll = survival term only "
                              f"instead of -log(h*S)", finding=FID)
         chk.tag("finding_region_entries", FID, n_known)
+    if impl.get("inputs_changed"):
+        chk.impl_failure(cj, f"Weibull nll functions modified their inputs in place: {impl['inputs_changed']}")
+    # the hazard itself (every entry, censored or not): h(t') = (rho/nu')(t'/nu')^(rho-1) for t' > 0, exactly 0 otherwise
+    if "hz" in impl:
+        hz = np.broadcast_to(np.asarray(impl["hz"], dtype=np.float64), v.shape)
+        with np.errstate(all="ignore"):
+            _, e_h, _ = env_weib(eps, R["rho"], R["xi"], R["sr"], R["tr"], R["nur"], R["ls"], np.where(R["pos"], np.where(R["loghaz"] == 0.0, 1e-300, R["loghaz"]), 1.0))
+            href = np.exp(R["loghaz"])
+            sane = R["pos"] & (R["loghaz"] > -700.0) & (R["loghaz"] < 700.0)
+            okh = np.where(sane, np.abs(hz - href) <= href * np.expm1(np.minimum(e_h, 1.0)) * 2.0 + 1e-300, True)
+            okh &= np.where(~R["pos"], hz == 0.0, True)
+        bad = first_bad(okh)
+        if bad is not None:
+            chk.impl_failure(cj, f"Weibull hazard entry {bad}: {float(hz[bad])!r} but (rho/nu')(t'/nu')^(rho-1) = {float(href[bad])!r} for t' = {float(R['tr'][bad])!r} "
+                                 f"(nu' = {float(R['nur'][bad])!r}, rho = {float(R['rho'][bad])!r}; 0 expected when t' <= 0)")
     ok_mask = ~(ambiguous | pen | (R["obs"] & R["pos"] & (R["loghaz"] < -700.0)))
     if ok_mask.any():
         ratio_tag(chk, "weib_ref_dev/envelope", v[ok_mask], R["ref"][ok_mask], e_nll[ok_mask])
@@ -618,7 +806,11 @@ def classify(c):
     t = c["t"]
     fam = c["family"]
     tags = {"family": fam, "layout": c.get("layout", "?"), "dtypes": c.get("dt", "?"), "api": c.get("api", "get_func_nll")}
-    key = (fam, c.get("layout"), c.get("dt"), tuple((k, tuple(v["v"])) for k, v in sorted(t.items())))
+    key = (fam, c.get("layout"), c.get("dt"), c.get("entry"), c.get("wkind"), c.get("ambient"),
+           tuple((k, tuple(v["v"])) for k, v in sorted(t.items())))
+    for k in ("entry", "wkind", "ambient"):
+        if c.get(k):
+            tags[k] = c[k]
     nontrivial = True
     if fam == "weib":
         R = weib_reference(c)
@@ -665,12 +857,25 @@ NORMAL_LAYOUTS = [
     ("ind_sources", "nS", "S", "", "get_func_regularization", False),
     ("ind_sources_0d", "nS", "", "", "get_func_regularization", False),
 ]
+# layouts at the edge of what the models build: one individual with one visit of one outcome, a 0-dim value, a single
+# population scalar, more than ten components, weighted values handed to the regularity function
+NORMAL_EDGE_LAYOUTS = [
+    ("attach_111", "111", "111", "1", "get_func_nll", True),
+    ("all_0d", "", "", "", "get_func_regularization", False),
+    ("pop_scalar", "1", "1", "", "get_func_regularization", False),
+    ("pop_vec_wide", "W", "W", "", "get_func_regularization", False),
+    ("attach_wide", "nTW", "nTW", "W", "get_func_nll", True),
+    ("ind_sources_weighted", "nS", "S", "", "get_func_regularization", True),
+]
+WKINDS = ["bool", "bool", "f32", "i64", "list"]
+ENTRIES = ["symbolic", "symbolic", "family"]
+AMBIENTS = [None, None, None, "f64default", "noncontig", "no_grad", "requires_grad"]
 
 
-def gen_normal(rng, dt, layout=None, extreme=None):
+def gen_normal(rng, dt, layout=None, extreme=None, variants=False):
     name, xs, ls, ss, api, has_mask = layout or rng.choice(NORMAL_LAYOUTS)
     dims = {"n": rng.randrange(1, 5), "T": rng.randrange(1, 4), "F": rng.randrange(1, 4), "K": rng.randrange(1, 5),
-            "M": rng.randrange(1, 3), "S": rng.randrange(1, 4), "1": 1}
+            "M": rng.randrange(1, 3), "S": rng.randrange(1, 4), "1": 1, "W": rng.randrange(11, 14)}
     shp = lambda code: tuple(dims[ch] for ch in code)  # noqa: E731
     x_shape, l_shape, s_shape = shp(xs), shp(ls), shp(ss)
     if dt == "f32":
@@ -679,11 +884,15 @@ def gen_normal(rng, dt, layout=None, extreme=None):
         dts = ("float64", "float64", "float64")
     else:  # the joint models' layout: float32 data, float64 model / parameters; values float32-representable
         dts = ("float32", "float64", "float64")
-    extreme = extreme if extreme is not None else rng.choice(["no", "no", "no", "tiny", "huge"])
+    extreme = extreme if extreme is not None else rng.choice(["no", "no", "no", "tiny", "huge", "small", "large"])
     if extreme == "tiny":
         smag = 1e-6 if dt != "f64" else 10.0 ** rng.uniform(-100, -20)
     elif extreme == "huge":
         smag = 1e6 if dt != "f64" else 10.0 ** rng.uniform(20, 100)
+    elif extreme == "small":   # every decade between the smallest std-dev the M-step accepts (3e-3) and far below it
+        smag = 10.0 ** rng.uniform(-12, -2)
+    elif extreme == "large":
+        smag = 10.0 ** rng.uniform(1, 12)
     else:
         smag = 10.0 ** rng.uniform(-2, 1)
     lmag = rng.choice([0.0, 1.0, 80.0, 1e4]) if extreme == "no" else 0.0
@@ -699,12 +908,28 @@ def gen_normal(rng, dt, layout=None, extreme=None):
     S = np.broadcast_to(np.array(scale).reshape(s_shape), x_shape).reshape(-1)
     x = []
     for i in range(numel(x_shape)):
-        z = rng.choice([0.0, rng.uniform(-6, 6), rng.uniform(-1, 1), rng.choice([-1, 1]) * 10.0 ** rng.uniform(-8, 1.5)])
+        # standardised residual: the bulk, exact 0, tiny, and the far tails (a value 1e2 .. 1e4 std-devs away, as a first
+        # iteration or a mis-specified unit produces)
+        z = rng.choice([0.0, rng.uniform(-6, 6), rng.uniform(-1, 1), rng.choice([-1, 1]) * 10.0 ** rng.uniform(-8, 1.5),
+                        rng.choice([-1, 1]) * 10.0 ** rng.uniform(1.5, 4)])
         x.append(float(L[i] + z * S[i]))
     tj["x"] = mk(x, x_shape, dts[0])
+    case = {"kind": "family", "family": "normal", "layout": name, "dt": dt, "api": api, "extreme": extreme, "t": tj}
     if has_mask and rng.random() < 0.8:
-        tj["mask"] = tjson([float(rng.random() < 0.75) for _ in range(numel(x_shape))], x_shape, "bool")
-    return {"kind": "family", "family": "normal", "layout": name, "dt": dt, "api": api, "extreme": extreme, "t": tj}
+        m = [float(rng.random() < 0.75) for _ in range(numel(x_shape))]
+        if x_shape and rng.random() < 0.2:      # an individual without any observed value / nothing observed at all
+            k = numel(x_shape) // x_shape[0]
+            i0 = rng.randrange(x_shape[0])
+            m = [0.0 if (j // k == i0 or rng.random() < 0.1) else v for j, v in enumerate(m)]
+        tj["mask"] = tjson(m, x_shape, "bool")
+        if api == "get_func_regularization":
+            case["xw"] = True
+    if variants:
+        case["entry"] = rng.choice(ENTRIES)
+        case["ambient"] = rng.choice(AMBIENTS)
+        if "mask" in tj:
+            case["wkind"] = rng.choice(WKINDS)
+    return case
 
 
 def gen_normal_special(rng):
@@ -716,50 +941,95 @@ def gen_normal_special(rng):
     out.append({"kind": "family", "family": "normal", "layout": "scale_nonpos", "dt": "f64", "api": "get_func_nll", "t": {
         "x": tjson([0.0, 1.0, 2.0, 0.5], (4,), "float64"), "loc": tjson([0.0, 0.0, 0.0, 0.5], (4,), "float64"),
         "scale": tjson([-2.0, 0.0, 1.0, 0.0], (4,), "float64")}})
+    # non-finite values, locations and scales (compared with the model only: IEEE propagation, nothing raised)
+    inf, nan = math.inf, math.nan
+    for dtn, dtl in (("float64", "f64"), ("float32", "f32")):
+        out.append({"kind": "family", "family": "normal", "layout": "nonfinite", "dt": dtl, "api": "get_func_nll", "t": {
+            "x": tjson([inf, -inf, nan, 0.0, 1.0, 2.0, inf, 0.5], (8,), dtn), "loc": tjson([0.0, 0.0, 0.0, inf, nan, 0.0, inf, 0.5], (8,), dtn),
+            "scale": tjson([1.0, 2.0, 1.0, 1.0, 1.0, inf, 1.0, nan], (8,), dtn)}})
     return out
 
 
-def gen_bern(rng, dt):
+def gen_bern(rng, dt, variants=False):
     n, T, F = rng.randrange(1, 5), rng.randrange(1, 4), rng.randrange(1, 4)
+    if variants and rng.random() < 0.15:
+        n, T, F = rng.choice([(1, 1, 1), (1, 1, 12), (2, 1, 11)])
     shape = (n, T, F)
     pd, yd = {"f32": ("float32", "float32"), "f64": ("float64", "float64"), "mixed": ("float64", "float32")}[dt]
     special = [0.0, 1.0, 1e-9, 1e-20, 0.5, 1 - 1e-9, 1.1920928955078125e-07, 2.220446049250313e-16, 1 - 1.1920928955078125e-07,
-               0.3, 0.99, 1e-4]
+               0.3, 0.99, 1e-4, 1e-38, 1e-300, 1 - 2.0 ** -24, 1 - 2.0 ** -53, 5.9604644775390625e-08]
     p = [rng.choice(special) if rng.random() < 0.4 else rng.random() for _ in range(numel(shape))]
     if dt == "mixed":
         p = [rnd32(v) for v in p]
     y = [float(rng.random() < 0.5) for _ in range(numel(shape))]
-    tj = {"p": mk(p, shape, pd), "y": mk(y, shape, yd)}
+    tj = {"p": mk(p, shape, pd)}
+    case = {"kind": "family", "family": "bern", "layout": "nTF", "dt": dt, "api": "get_func_nll"}
     if rng.random() < 0.8:
-        tj["mask"] = tjson([float(rng.random() < 0.75) for _ in range(numel(shape))], shape, "bool")
-    return {"kind": "family", "family": "bern", "layout": "nTF", "dt": dt, "api": "get_func_nll", "t": tj}
+        m = [float(rng.random() < 0.75) for _ in range(numel(shape))]
+        if rng.random() < 0.2:                  # an individual without any observed value
+            k = numel(shape) // n
+            i0 = rng.randrange(n)
+            m = [0.0 if j // k == i0 else v for j, v in enumerate(m)]
+        tj["mask"] = tjson(m, shape, "bool")
+        if variants and rng.random() < 0.5:
+            # what sits under the mask is nobody's business: a placeholder outside {0, 1}, nan (F31)
+            y = [v if mm else rng.choice([v, 0.5, -1.0, 2.0, math.nan]) for v, mm in zip(y, m)]
+            case["garbage_under_mask"] = True
+    tj["y"] = mk(y, shape, yd)
+    case["t"] = tj
+    if variants:
+        case["entry"] = rng.choice(ENTRIES)
+        case["ambient"] = rng.choice([a for a in AMBIENTS if a != "requires_grad"])
+        if "mask" in tj:
+            case["wkind"] = rng.choice(WKINDS)
+    return case
 
 
 def nextafter(x, direction):
     return math.nextafter(x, math.inf if direction > 0 else -math.inf)
 
 
-def gen_weib(rng, dt, sources=None, rho_fixed=None, extreme=None):
+def gen_weib(rng, dt, sources=None, rho_fixed=None, extreme=None, variants=False):
     """dt: f64 (everything float64), p32 (nu, rho, survival shifts float32; xi, tau float64 - the joint model's layout),
-    a32 (all parameters float32). Event times are always float64."""
+    a32 (all parameters float32). Event times are always float64.
+    variants: wider ranges (shape 0.05 .. 30, |xi| up to 4.5, scales over seven decades, up to 12 individuals / 4 events),
+    the layouts at the edge (one individual; every event censored / observed; the trajectory layout: T time points of ONE
+    individual as rows, all censored), other entry points, weights in other dtypes, other process states."""
     n, E = rng.randrange(1, 7), rng.randrange(1, 4)
+    lay = None
+    if variants:
+        lay = rng.choice([None, None, None, "one", "all_cens", "all_obs", "traj", "big"])
+        if lay == "one":
+            n = 1
+        elif lay == "big":
+            n, E = rng.randrange(8, 13), rng.randrange(2, 5)
     sources = (rng.random() < 0.5) if sources is None else sources
     pdt = {"f64": "float64", "p32": "float32", "a32": "float32"}[dt]
     idt = {"f64": "float64", "p32": "float64", "a32": "float32"}[dt]
     f32 = lambda v: rnd32(v) if dt != "f64" else v  # noqa: E731
-    extreme = extreme if extreme is not None else (rng.choice(["no", "no", "no", "scales"]) if dt == "f64" else "no")
-    rho = [f32(rho_fixed if rho_fixed is not None else rng.choice([0.3, 1.0, 5.0, 0.3, 1.0, 5.0, rng.uniform(0.2, 8.0)])) for _ in range(E)]
+    extreme = extreme if extreme is not None else (rng.choice(["no", "no", "no", "scales"]) if (dt == "f64" or variants) else "no")
+    rho_pool = [0.3, 1.0, 5.0, 0.3, 1.0, 5.0, rng.uniform(0.2, 8.0)]
+    if variants:
+        rho_pool += [10.0 ** rng.uniform(-1.3, 1.48), 10.0 ** rng.uniform(-1.3, 1.48), nextafter(1.0, 1), nextafter(1.0, -1), 2.0]
+    rho = [f32(rho_fixed if rho_fixed is not None else rng.choice(rho_pool)) for _ in range(E)]
     if extreme == "scales":
-        nu = [10.0 ** rng.uniform(-30, 30) for _ in range(E)]
+        span = 30 if dt == "f64" else 12
+        nu = [f32(10.0 ** rng.uniform(-span, span)) for _ in range(E)]
         tau = [0.0 for _ in range(n)]
     else:
-        nu = [f32(10.0 ** rng.uniform(-1, 2.5)) for _ in range(E)]
+        nu = [f32(10.0 ** (rng.uniform(-3, 4) if variants else rng.uniform(-1, 2.5))) for _ in range(E)]
         tau = [f32(rng.choice([0.0, rng.uniform(50, 90), rng.uniform(-5, 5)])) for _ in range(n)]
-    xi = [f32(rng.choice([0.0, rng.uniform(-2, 2), rng.uniform(-0.3, 0.3)])) for _ in range(n)]
+    xr = 4.5 if variants else 2.0
+    xi = [f32(rng.choice([0.0, rng.uniform(-xr, xr), rng.uniform(-0.3, 0.3)])) for _ in range(n)]
+    if lay == "traj":
+        tau = [tau[0]] * n
+        xi = [xi[0]] * n
     tj = {}
     s = None
     if sources:
         s = [[f32(rng.uniform(-2, 2) * min(1.0, rho[e_])) for e_ in range(E)] for _ in range(n)]
+        if lay == "traj":
+            s = [s[0]] * n
         tj["s"] = tjson([v for row in s for v in row], (n, E), pdt)
     t, ev = [], []
     for i in range(n):
@@ -767,7 +1037,10 @@ def gen_weib(rng, dt, sources=None, rho_fixed=None, extreme=None):
             nur = nu[e_] * math.exp(-(xi[i] + (s[i][e_] / rho[e_] if sources else 0.0)))
             mode = rng.choice(["pos", "pos", "pos", "neg", "zero", "ulp+", "ulp-", "smallpos"])
             if mode == "pos":
-                tt = tau[i] + nur * 10.0 ** rng.uniform(-2, 0.7 if rho[e_] > 2 else 1.5)
+                hi = 0.7 if rho[e_] > 2 else 1.5
+                if rho[e_] > 8:
+                    hi = 0.3
+                tt = tau[i] + nur * 10.0 ** rng.uniform(-2, hi)
             elif mode == "smallpos":
                 tt = tau[i] + nur * 10.0 ** rng.uniform(-12, -3)
             elif mode == "neg":
@@ -780,11 +1053,30 @@ def gen_weib(rng, dt, sources=None, rho_fixed=None, extreme=None):
                 tt = nextafter(tau[i], -1) if tau[i] != 0 else -1e-30 * nur
             t.append(float(tt))
             ev.append(float(rng.random() < 0.6))
-    tj.update({"t": tjson(t, (n, E), "float64"), "ev": tjson(ev, (n, E), "bool"),
-               "nu": tjson(nu, (E,), pdt), "rho": tjson(rho, (E,), pdt),
-               "xi": tjson(xi, (n, 1), idt), "tau": tjson(tau, (n, 1), idt)})
-    return {"kind": "family", "family": "weib", "layout": "nE_src" if sources else "nE", "dt": dt, "api": "get_func_nll",
-            "extreme": extreme, "t": tj}
+    if lay in ("all_cens", "traj"):
+        ev = [0.0] * len(ev)
+    elif lay == "all_obs":
+        ev = [1.0] * len(ev)
+    t_shape = (n, E)
+    if lay == "traj":
+        # JointModel.compute_individual_trajectory: the event variable is (time points) x 1, all censored, one individual
+        t = [t[i * E] for i in range(n)]
+        ev = [0.0] * n
+        t_shape = (n, 1)
+        tj["xi"], tj["tau"] = tjson(xi[:1], (1, 1), idt), tjson(tau[:1], (1, 1), idt)
+        if sources:
+            tj["s"] = tjson(s[0], (1, E), pdt)
+    else:
+        tj["xi"], tj["tau"] = tjson(xi, (n, 1), idt), tjson(tau, (n, 1), idt)
+    tj.update({"t": tjson(t, t_shape, "float64"), "ev": tjson(ev, t_shape, "bool"),
+               "nu": tjson(nu, (E,), pdt), "rho": tjson(rho, (E,), pdt)})
+    case = {"kind": "family", "family": "weib", "layout": ("nE_src" if sources else "nE") + (":" + lay if lay else ""), "dt": dt,
+            "api": "get_func_nll", "extreme": extreme, "t": tj}
+    if variants:
+        case["entry"] = rng.choice(ENTRIES)
+        case["ambient"] = rng.choice([a for a in AMBIENTS if a != "requires_grad"])
+        case["wkind"] = rng.choice(["bool", "bool", "f32", "i64"])
+    return case
 
 
 def finding_witnesses():
@@ -812,6 +1104,13 @@ def family_cases(chk):
             cases.append(gen_normal(rng, dt))
         for _ in range(40 if thorough else 10):
             cases.append(gen_bern(rng, dt))
+        # edge layouts, every decade of the scale, other entry points / weight dtypes / process states
+        for lay in NORMAL_EDGE_LAYOUTS:
+            cases.append(gen_normal(rng, dt, lay, None, variants=True))
+        for _ in range(80 if thorough else 14):
+            cases.append(gen_normal(rng, dt, rng.choice(NORMAL_LAYOUTS + NORMAL_EDGE_LAYOUTS), rng.choice(["no", "small", "large", "small"]), variants=True))
+        for _ in range(40 if thorough else 8):
+            cases.append(gen_bern(rng, dt, variants=True))
     cases += gen_normal_special(rng)
     for dt in ("f64", "p32", "a32"):
         for src in (False, True):
@@ -820,6 +1119,8 @@ def family_cases(chk):
                     cases.append(gen_weib(rng, dt, src, rho))
             for _ in range(60 if thorough else 10):
                 cases.append(gen_weib(rng, dt, src))
+            for _ in range(60 if thorough else 10):
+                cases.append(gen_weib(rng, dt, src, None, None, variants=True))
     for src in (False, True):
         for _ in range(40 if thorough else 8):
             cases.append(gen_weib(rng, "f64", src, None, "scales"))
@@ -830,6 +1131,10 @@ def family_cases(chk):
 
 
 # ---------------------------------------------------------------------------- real models: state['nll_*']
+# (tests/_data/.../shared_speed_logistic_diag_noise_no_source.json is a stale file of a model kind that no longer exists: not listed)
+MORE_STATE_MODELS = ["linear_diag_noise", "shared_speed_logistic_diag_noise", "shared_speed_logistic_scalar_noise",
+                     "joint_no_sources", "univariate_logistic", "univariate_linear",
+                     "logistic_diag_noise_fast_gibbs", "logistic_binary_for_test_api", "univariate_joint_for_test_api"]
 STATE_MODELS = ["logistic_diag_noise", "logistic_scalar_noise", "logistic_binary", "linear_scalar_noise",
                 "shared_speed_logistic_binary", "joint_diagonal", "joint_scalar", "univariate_joint"]
 
@@ -845,50 +1150,101 @@ def punch(df, cols, seed):
     return df
 
 
-def load_model(name, holes_seed=None):
+def load_model(name, holes_seed=None, subset=None, events2=False):
+    """stored model + mock cohort.  subset: None (whole cohort) | 'one' (ONE individual with ONE visit) | 'few' (three individuals);
+    events2: the joint model with two competing events (EVENT_BOOL in {0, 1, 2} through the public reader)."""
+    import copy
+    import json
     import pandas as pd
     from leaspy.io.data import Data, Dataset
     from leaspy.models import BaseModel
     R = core.REPO / "tests/_data"
-    m = BaseModel.load(str(R / f"model_parameters/from_fit/{name}.json"))
-    if "joint" in name:
+    path = R / f"model_parameters/from_fit/{name}.json"
+    if events2:
+        d = copy.deepcopy(json.loads(path.read_text()))
+        d["nb_events"] = 2
+        P = d["parameters"]
+        P["log_rho_mean"] = [P["log_rho_mean"][0], 0.4]
+        P["n_log_nu_mean"] = [P["n_log_nu_mean"][0], P["n_log_nu_mean"][0] - 0.75]
+        if "zeta_mean" in P:
+            P["zeta_mean"] = [[row[0], -2.0 * row[0] + 0.125] for row in P["zeta_mean"]]
+        m = BaseModel.load(d)
+    else:
+        m = BaseModel.load(str(path))
+    joint = "joint" in name
+    if joint:
         df = pd.read_csv(R / "data_mock/data_tiny_joint.csv", dtype={"ID": str}, sep=";")
         if "univariate" in name:
             df = df.iloc[:, :5]
-        data = Data.from_dataframe(df, data_type="joint")
+        if events2:
+            for k, i in enumerate(df.ID.unique()):
+                if k % 3 == 0:
+                    df.loc[(df.ID == i) & (df.EVENT_BOOL == 1), "EVENT_BOOL"] = 2
     elif "binary" in name:
         df = pd.read_csv(R / "data_mock/binary_data.csv", dtype={"ID": str})
-        if holes_seed is not None:
-            df = punch(df, [c for c in df.columns if c not in ("ID", "TIME")], holes_seed)
-        data = Data.from_dataframe(df)
     else:
         df = pd.read_csv(R / "data_mock/data_tiny.csv", dtype={"ID": str})
-        if holes_seed is not None:
-            df = punch(df, [c for c in df.columns if c not in ("ID", "TIME")], holes_seed)
-        data = Data.from_dataframe(df)
+        if "univariate" in name:
+            df = df.iloc[:, :3]
+    if subset is not None:
+        ids = list(df.ID.unique())
+        if joint:   # the reader infers the number of events from the largest indicator: keep an individual that has it
+            top = df.EVENT_BOOL.max()
+            ids = [i for i in ids if df[df.ID == i].EVENT_BOOL.iloc[0] == top] + [i for i in ids if df[df.ID == i].EVENT_BOOL.iloc[0] != top]
+        if subset == "one":
+            df = df[df.ID == ids[0]].iloc[:1]
+        else:
+            df = df[df.ID.isin(ids[:2] + ids[-1:])]
+    if holes_seed is not None and not joint and subset != "one":
+        df = punch(df, [c for c in df.columns if c not in ("ID", "TIME")], holes_seed)
+    data = Data.from_dataframe(df, data_type="joint") if joint else Data.from_dataframe(df)
     return m, Dataset(data)
 
 
-def state_case(chk, name, seed, tau_mode):
+# documented parametrisation of every likelihood term (NOT read from the implementation's objects)
+DOC_OBS = {
+    "gaussian-diagonal": ("normal", ("model", "noise_std")),
+    "gaussian-scalar": ("normal", ("model", "noise_std")),
+    "bernoulli": ("bern", ("model",)),
+    "weibull-right-censored": ("weib", ("nu", "rho", "xi", "tau")),
+    "weibull-right-censored-with-sources": ("weib", ("nu", "rho", "xi", "tau", "survival_shifts")),
+}
+
+
+def _famname(fam):
+    D = env()["D"]
+    return {D.NormalFamily: "normal", D.BernoulliFamily: "bern", D.WeibullRightCensoredFamily: "weib",
+            D.WeibullRightCensoredWithSourcesFamily: "weib"}.get(fam)
+
+
+def state_case(chk, name, seed, tau_mode, variant=None):
     """Real model: draw individual latent variables, read state['nll_*'], rebuild every term from the state's own
-    inputs with (a) the family-level evaluation above (predicate + Lean model) and (b) the sums kept in the state."""
+    inputs with (a) the family-level evaluation above (predicate + Lean model) and (b) the sums kept in the state.
+    Then the SAME state gets other parameters written in place (noise levels below 0.01, other prior widths and centres,
+    individual values several prior std-devs out) and everything is evaluated again: the terms must follow the current values."""
+    import random
     e = env()
     torch, np, WT, D = e["torch"], e["np"], e["WT"], e["D"]
-    from leaspy.variables.specs import IndividualLatentVariable, LatentVariableInitType, PopulationLatentVariable
+    from leaspy.variables.specs import IndividualLatentVariable, LatentVariableInitType
+    variant = dict(variant or {})
     case = {"kind": "state", "model": name, "seed": seed, "tau_mode": tau_mode}
+    if variant:
+        case["variant"] = variant
     if not (core.REPO / f"tests/_data/model_parameters/from_fit/{name}.json").exists():
         chk.note(f"stored model {name}.json not in {core.REPO}: state-level case skipped")
         return
     try:
         with core.quiet():
-            m, ds = load_model(name, holes_seed=(seed if seed % 2 == 0 else None))
+            m, ds = load_model(name, holes_seed=(seed if seed % 2 == 0 else None), subset=variant.get("subset"), events2=bool(variant.get("events2")))
             st = m.state
             m.put_data_variables(st, ds)
             torch.manual_seed(seed)
             with st.auto_fork(None):
                 st.put_individual_latent_variables(LatentVariableInitType.PRIOR_SAMPLES, n_individuals=ds.n_individuals)
                 if "joint" in name:
-                    # the joint model keeps xi / tau as float64 (JointModel.put_individual_parameters builds them from a DataFrame)
+                    # the joint model keeps xi / tau as float64 (JointModel.put_individual_parameters builds them from a DataFrame);
+                    # after a sampler step they are float32 again: both
+                    idt = torch.float32 if variant.get("ind_dtype") == "f32" else torch.float64
                     xi = st["xi"].double()
                     tau = st["tau"].double()
                     et = ds.event_time[:, :1].double()
@@ -902,8 +1258,55 @@ def state_case(chk, name, seed, tau_mode):
                         tau = torch.where(pick == 1, et + 1.5, tau)           # t' < 0
                         tau = torch.where(pick == 2, et - 1e-9, tau)          # t' = +tiny
                         tau = torch.where(pick == 3, torch.minimum(tau, et - 0.3), tau)
-                    st["xi"] = xi
-                    st["tau"] = tau
+                    elif tau_mode == "after":                                 # every event before the reference time
+                        tau = et + 1.5
+                    st["xi"] = xi.to(idt)
+                    st["tau"] = tau.to(idt)
+    except Exception as ex:  # noqa
+        chk.impl_failure(case, f"reading state['nll_*'] of stored model {name} failed: {type(ex).__name__}: {str(ex)[:200]}")
+        chk.case(("state", name, seed, tau_mode, json_key(variant)), nontrivial=False, tags={"family": "state", "state_model": name})
+        return
+    if not _eval_state(chk, case, m, ds, st, name, seed, tau_mode, variant, "drawn"):
+        return
+    # ---- second pass on the very same state: other parameter values written in place
+    r = random.Random(seed * 7919 + 13)
+    case2 = dict(case, second_pass="hand-set parameters and far-tail individual values on the same state")
+    try:
+        with core.quiet(), st.auto_fork(None):
+            if "noise_std" in st.dag:
+                ns = st["noise_std"]
+                k = torch.tensor([r.choice([0.03, 0.08, 0.5, 3.0]) for _ in range(max(ns.numel(), 1))]).reshape(ns.shape).to(ns.dtype)
+                st["noise_std"] = ns * k
+            st["xi_std"] = st["xi_std"] * r.choice([0.25, 3.0])
+            st["tau_std"] = st["tau_std"] * r.choice([0.3, 2.5])
+            st["tau_mean"] = st["tau_mean"] + r.choice([-4.0, 5.0])
+            far = r.choice([3.0, 4.5])
+            st["xi"] = (st["xi"] * far).to(st["xi"].dtype)
+            if "joint" not in name:
+                st["tau"] = (st["tau_mean"] + (st["tau"] - st["tau_mean"]) * far).to(st["tau"].dtype)
+            if "sources" in st.dag:
+                st["sources"] = (st["sources"] * far).to(st["sources"].dtype)
+    except Exception as ex:  # noqa
+        chk.impl_failure(case2, f"writing admissible parameter values into the state of {name} failed: {type(ex).__name__}: {str(ex)[:200]}")
+        return
+    _eval_state(chk, case2, m, ds, st, name, seed, tau_mode, variant, "handset")
+
+
+def json_key(v):
+    import json
+    return json.dumps(v, sort_keys=True)
+
+
+def _eval_state(chk, case, m, ds, st, name, seed, tau_mode, variant, label):
+    e = env()
+    torch, np, WT, D = e["torch"], e["np"], e["WT"], e["D"]
+    from leaspy.variables.specs import IndividualLatentVariable, PopulationLatentVariable
+
+    def plain(v):
+        return (v.weighted_value if isinstance(v, WT) else v).detach().double()
+
+    try:
+        with core.quiet():
             terms = []
             if "y" in st.dag:
                 # the observations enter the likelihood with the dataset's own mask: a missing outcome contributes nothing
@@ -923,8 +1326,19 @@ def state_case(chk, name, seed, tau_mode):
             for om in m.obs_models:
                 fam = om.dist.dist_family
                 nm = f"nll_attach_{om.name}_ind" if f"nll_attach_{om.name}_ind" in st.dag else "nll_attach_ind"
+                # the documented parametrisation, from the observation model's public name
+                doc = DOC_OBS.get(om.to_string())
+                if doc is None:
+                    chk.tag("state_obs_model_not_documented_here", om.to_string())
+                elif _famname(fam) != doc[0] or tuple(om.dist.parameters_names) != doc[1]:
+                    chk.impl_failure(case, f"observation model '{om.to_string()}' evaluates {fam.__name__}{tuple(om.dist.parameters_names)}; "
+                                           f"documented: {doc[0]} distribution of {doc[1]}")
                 terms.append((om.name, fam, om.dist.parameters_names, nm, "ind", "get_func_nll"))
             for vn, var in st.dag.items():
+                if isinstance(var, (IndividualLatentVariable, PopulationLatentVariable)):
+                    if _famname(var.prior.dist_family) != "normal" or tuple(var.prior.parameters_names) != (f"{vn}_mean", f"{vn}_std"):
+                        chk.impl_failure(case, f"prior of latent variable '{vn}' is {var.prior.dist_family.__name__}{tuple(var.prior.parameters_names)}; "
+                                               f"documented: Gaussian({vn}_mean, {vn}_std)")
                 if isinstance(var, IndividualLatentVariable):
                     terms.append((vn, var.prior.dist_family, var.prior.parameters_names, f"nll_regul_{vn}_ind", "ind", "get_func_regularization"))
                 elif isinstance(var, PopulationLatentVariable):
@@ -935,14 +1349,55 @@ def state_case(chk, name, seed, tau_mode):
                 params = [st[p] for p in pnames]
                 params = [p.weighted_value if isinstance(p, WT) else p for p in params]
                 got.append((vn, fam, pnames, nllname, red, api, val, params, st[nllname]))
+            # shape / scale of the Weibull and the survival shifts from the latent variables they are documented to derive from
+            derived = []
+            if "nu" in st.dag and "n_log_nu" in st.dag:
+                derived.append(("nu = exp(-n_log_nu)", plain(st["nu"]), torch.exp(-plain(st["n_log_nu"])), None))
+                derived.append(("rho = exp(log_rho)", plain(st["rho"]), torch.exp(plain(st["log_rho"])), None))
+            if "survival_shifts" in st.dag:
+                S_, Z_ = plain(st["sources"]), plain(st["zeta"])
+                derived.append(("survival_shifts = sources @ zeta", plain(st["survival_shifts"]), S_ @ Z_, S_.abs() @ Z_.abs()))
+            # totals the algorithms read (acceptance ratios, convergence metrics) against the per-term values of the same state
+            totals = []
+            names = set(st.dag)
+
+            def tot(target, parts, how):
+                if target in names and all(p_ in names for p_ in parts):
+                    totals.append((target, how, plain(st[target]), [plain(st[p_]) for p_ in parts]))
+            if "nll_attach_y_ind" in names:
+                tot("nll_attach_ind", ["nll_attach_y_ind", "nll_attach_event_ind"], "sum of the parts")
+                tot("nll_attach", ["nll_attach_y", "nll_attach_event"], "sum of the parts")
+                tot("nll_attach_y", ["nll_attach_y_ind"], "sum over individuals")
+                tot("nll_attach_event", ["nll_attach_event_ind"], "sum over individuals")
+            tot("nll_attach", ["nll_attach_ind"], "sum over individuals")
+            ind_vars = [vn for vn, var in st.dag.items() if isinstance(var, IndividualLatentVariable)]
+            for vn in ind_vars:
+                tot(f"nll_regul_{vn}", [f"nll_regul_{vn}_ind"], "sum over individuals")
+            tot("nll_regul_ind_sum_ind", [f"nll_regul_{vn}_ind" for vn in ind_vars], "sum of the parts")
+            tot("nll_regul_ind_sum", ["nll_regul_ind_sum_ind"], "sum over individuals")
     except Exception as ex:  # noqa
-        chk.impl_failure(case, f"reading state['nll_*'] of stored model {name} failed: {type(ex).__name__}: {str(ex)[:200]}")
-        chk.case(("state", name, seed, tau_mode), nontrivial=False, tags={"family": "state", "state_model": name})
-        return
+        chk.impl_failure(case, f"reading state['nll_*'] of stored model {name} failed ({label}): {type(ex).__name__}: {str(ex)[:200]}")
+        chk.case(("state", name, seed, tau_mode, json_key(variant), label), nontrivial=False, tags={"family": "state", "state_model": name})
+        return False
+    for what, have, want, mag in derived:
+        mag = want.abs() if mag is None else mag
+        if have.shape != want.shape or not bool(((have - want).abs() <= 16 * EPS32 * (mag + have.abs()) + 1e-30).all()):
+            chk.impl_failure(case, f"state: {what} does not hold: {have.reshape(-1)[:4].tolist()} vs {want.reshape(-1)[:4].tolist()}")
+    for target, how, have, parts in totals:
+        if how == "sum over individuals":
+            want, mag, cnt = parts[0].sum(), parts[0].abs().sum(), parts[0].numel()
+        else:
+            want, mag, cnt = sum(parts), sum(p_.abs() for p_ in parts), len(parts)
+        ok = (have - want).abs() <= (cnt + 2) * 4 * EPS32 * mag + 1e-30
+        ok = ok | (torch.isnan(have) & torch.isnan(want)) | (torch.isinf(have) & (have == want))
+        if have.shape != want.shape or not bool(ok.all()):
+            chk.impl_failure(case, f"state['{target}'] = {have.reshape(-1)[:3].tolist()} is not the {how} ({want.reshape(-1)[:3].tolist()})")
+        # a total is finite as long as fewer than 17 penalised events are summed (17 * 1e307 is still a double)
+        if torch.isinf(have).any() and not any(torch.isinf(p_).any() for p_ in parts):
+            chk.tag("penalty_total_overflow", target)
     sub = []
     for vn, fam, pnames, nllname, red, api, val, params, nll in got:
-        famname = {D.NormalFamily: "normal", D.BernoulliFamily: "bern", D.WeibullRightCensoredFamily: "weib",
-                   D.WeibullRightCensoredWithSourcesFamily: "weib"}.get(fam)
+        famname = _famname(fam)
         if famname is None:
             chk.tag("state_family_not_covered", fam.__name__)
             continue
@@ -965,7 +1420,7 @@ def state_case(chk, name, seed, tau_mode):
             tj = {"t": from_torch(v), "ev": tjson((w != 0).double().reshape(-1).tolist(), tuple(w.shape), "bool")}
             for k, p in zip(("nu", "rho", "xi", "tau", "s"), params):
                 tj[k] = from_torch(p)
-            dtl = "p32"
+            dtl = "a32" if tj["xi"]["dtype"] == "float32" else "p32"
         c = {"kind": "family", "family": famname, "layout": f"state:{name}:{vn}", "dt": dtl, "api": api, "t": tj,
              "origin": case, "_nll": nll.detach().double().reshape(-1).numpy(), "_red": red}
         sub.append(c)
@@ -994,38 +1449,42 @@ def state_case(chk, name, seed, tau_mode):
         if c["family"] == "weib":
             mask = np.ones(mv.shape, dtype=bool)
         eps = EPS32
-        for label, arr in (("implementation's entry-wise values", iv), ("model's entry-wise values", mv)):
+        for label_, arr in (("implementation's entry-wise values", iv), ("model's entry-wise values", mv)):
             a = np.where(mask, arr, 0.0)
             big = np.abs(a) >= 1e300
             if red == "ind":
-                tot = a.reshape(a.shape[0], -1).sum(axis=1)
+                tot_ = a.reshape(a.shape[0], -1).sum(axis=1)
                 mag = np.abs(a).reshape(a.shape[0], -1).sum(axis=1)
                 cnt = a.reshape(a.shape[0], -1).shape[1]
             else:
-                tot = np.array([a.sum()])
+                tot_ = np.array([a.sum()])
                 mag = np.array([np.abs(a).sum()])
                 cnt = a.size
             ee = np.where(mask, entry_env, 0.0)
             esum = ee.reshape(ee.shape[0], -1).sum(axis=1) if red == "ind" else np.array([ee.sum()])
             envs = 2.0 * esum + (cnt + 2) * eps * mag + 1e-30   # entry envelopes (both sides) + float32 summation
-            if tot.shape != nll.shape:
-                chk.disagree(c, list(nll.shape), list(tot.shape), f"state['{_nllname(c)}'] shape")
+            if tot_.shape != nll.shape:
+                chk.disagree(c, list(nll.shape), list(tot_.shape), f"state['{_nllname(c)}'] shape")
                 break
-            ok = close(nll, tot, envs)
+            ok = close(nll, tot_, envs)
             bad = first_bad(ok)
             if bad is not None:
-                msg = f"state['{_nllname(c)}'][{bad[0]}] = {float(nll[bad])!r} but the sum of the {label} over the unmasked entries is {float(tot[bad])!r}"
-                if label.startswith("impl"):
+                msg = f"state['{_nllname(c)}'][{bad[0]}] = {float(nll[bad])!r} but the sum of the {label_} over the unmasked entries is {float(tot_[bad])!r}"
+                if label_.startswith("impl"):
                     chk.impl_failure(c, msg)
                 else:
-                    chk.disagree(c, float(nll[bad]), float(tot[bad]), msg)
+                    chk.disagree(c, float(nll[bad]), float(tot_[bad]), msg)
                 break
             if big.any() and not np.isfinite(nll).all():
                 chk.impl_failure(c, f"state['{_nllname(c)}'] not finite with a penalised event")
         nontrivial, key, tags = classify(c)
         tags["state_model"] = name
         tags["layout"] = "state:" + _nllname(c)
-        chk.case(("state", name, seed, tau_mode, c["layout"]), nontrivial=nontrivial, tags=tags)
+        tags["state_pass"] = label
+        for k_, v_ in variant.items():
+            tags["state_" + k_] = str(v_)
+        chk.case(("state", name, seed, tau_mode, json_key(variant), label, c["layout"]), nontrivial=nontrivial, tags=tags)
+    return True
 
 
 def _nllname(c):
@@ -1075,7 +1534,21 @@ def run(chk: core.Check):
                 "priors; events (n,E) with (E,) population and (n,1) individual parameters, with and without sources), dtypes float32 / float64 / "
                 "mixed, rho in {0.3,1,5}+random, t' in {>0, tiny, 0, +-1 ulp, <0}, tiny/huge scales; state level: state['nll_*'] of 8 stored "
                 "models after drawing individual variables (tau moved around the event time for joint models). A Weibull case is non-trivial "
-                "when it holds at least one observed and one censored entry; distinct by exact input values.")
+                "when it holds at least one observed and one censored entry; distinct by exact input values. "
+                "Hardened generation: ONE symbolic distribution / function object per family for the whole run; every call is preceded by a dropped "
+                "call on other values held by the very same tensor objects (then overwritten in place) and followed by a bitwise check that the "
+                "inputs are untouched; every public entry point (get_func_nll / _regularization / _nll_jacobian / _nll_and_jacobian, the family "
+                "classmethods nll / regularization / nll_jacobian / nll_and_jacobian, regularization of a weighted value, compute_hazard); weights as "
+                "bool / float / integer tensors and nested lists; process state (default dtype float64, no_grad, inputs requiring grad, non-contiguous "
+                "inputs); Gaussian scales over every decade 1e-12 .. 1e12, residuals out to 1e4 std-devs, non-finite inputs (model only), 0-dim / single "
+                "entry / > 10 component layouts, individuals without any observed entry; Bernoulli placeholders (nan, 0.5, -1, 2) under the mask; "
+                "Weibull shape 0.05 .. 30, |xi| <= 4.5, scales 1e-3 .. 1e4 (and 1e+-12 in float32), up to 12 individuals x 4 events, one individual, all "
+                "censored / all observed, the trajectory layout (time points x 1 against one individual). State level: documented parameter names and "
+                "families checked against a table, nu / rho / survival_shifts recomputed from the latent variables, every total (nll_attach[_ind], "
+                "nll_regul_*, nll_regul_ind_sum[_ind]) against its parts, then a SECOND evaluation of the same state after writing other noise levels "
+                "(down to 3% of the fitted ones), prior widths / centres and far-tail individual values into it; 3 more stored models per run, cohorts "
+                "of one individual with one visit / three individuals, two competing events through the public reader, float32 individual variables "
+                "in the joint model, every event before the reference time.")
     corpus = [c for c in core.load_corpus(PROP) if c.get("kind") == "family"]
     probe_f32_event_time(chk)
     run_cases(chk, corpus + family_cases(chk))
@@ -1086,6 +1559,20 @@ def run(chk: core.Check):
             modes = ["mixed", "before"] if "joint" in name else ["prior"]
             for md in modes:
                 state_case(chk, name, chk.rng.randrange(10 ** 6) if sd else chk.seed, md)
+    # other stored models, cohorts at the edge (one individual with one visit, three individuals), two competing events through
+    # the public reader, individual variables of the joint model in float32, every event before the reference time
+    rng = chk.rng
+    extra = []
+    for name in (MORE_STATE_MODELS if chk.tier == "thorough" else rng.sample(MORE_STATE_MODELS, 3)):
+        extra.append((name, "mixed" if "joint" in name else "prior", {"subset": rng.choice([None, "few", "one"])}))
+    for name in ("joint_diagonal", "univariate_joint", "joint_scalar"):
+        extra.append((name, rng.choice(["mixed", "before"]), {"events2": True, "ind_dtype": rng.choice(["f64", "f32"])}))
+    extra.append((rng.choice(["joint_diagonal", "univariate_joint"]), "after", {"ind_dtype": "f32"}))
+    extra.append((rng.choice(["joint_diagonal", "joint_scalar"]), "mixed", {"subset": "one", "events2": rng.random() < 0.5}))
+    extra.append((rng.choice(["logistic_diag_noise", "logistic_binary", "linear_scalar_noise"]), "prior", {"subset": "one"}))
+    for _ in range(3 if chk.tier == "thorough" else 1):
+        for name, md, var in extra:
+            state_case(chk, name, rng.randrange(10 ** 6), md, {k: v for k, v in var.items() if v not in (None, False)})
     chk.exhaustive = False
 
 
@@ -1096,7 +1583,7 @@ def replay(chk: core.Check, payload):
         chk.note("replay file has no case")
         return
     if case.get("kind") == "state":
-        state_case(chk, case["model"], case["seed"], case["tau_mode"])
+        state_case(chk, case["model"], case["seed"], case["tau_mode"], case.get("variant"))
     elif case.get("kind") == "family":
         case = {k: v for k, v in case.items() if not k.startswith("_")}
         run_cases(chk, [case])
